@@ -69,9 +69,12 @@ structure Wf where
   stale : Nat → Bool          -- `should_run(target, fs, spec_hashes)`
 
 structure SState where
-  cache : List (Nat × Status) := []          -- `cache` dict, insertion order
-  log   : List (Nat × List Nat) := []        -- `submit_func(target, dependencies=…)` calls in order
+  cache : List (Nat × Status) := []          -- `cache` dict, NEWEST FIRST
+  log   : List (Nat × List Nat) := []        -- `submit_func(target, dependencies=…)` calls, NEWEST FIRST
   deriving Repr
+
+/-- the submissions in the order they were made -/
+def SState.chron (st : SState) : List (Nat × List Nat) := st.log.reverse
 
 /-- one iteration of `for dep in sorted(dependencies[target])` -/
 def depStep (vis : SState → Nat → SState × Status) (acc : SState × List Nat) (d : Nat) : SState × List Nat :=
@@ -80,8 +83,8 @@ def depStep (vis : SState → Nat → SState × Status) (acc : SState × List Na
 
 def finish (w : Wf) (t : Nat) (r : SState × List Nat) : SState × Status :=
   let ds := decideT (w.bstat t) r.2 (w.stale t)
-  ({ cache := r.1.cache ++ [(t, ds.1)],
-     log := if ds.2 then r.1.log ++ [(t, r.2)] else r.1.log }, ds.1)
+  ({ cache := (t, ds.1) :: r.1.cache,
+     log := if ds.2 then (t, r.2) :: r.1.log else r.1.log }, ds.1)
 
 /-- `_cached_schedule`; fuel bounds the recursion depth (≥ number of targets suffices on a DAG) -/
 def visit (w : Wf) : Nat → SState → Nat → SState × Status
